@@ -35,6 +35,9 @@ type Case struct {
 	// glob op
 	Pattern string `json:"pattern,omitempty"`
 
+	// session op: several RunFiles calls (and file rewrites in between) on the same paths in ONE process
+	Steps []Step `json:"steps,omitempty"`
+
 	// conc / hist ops
 	Calls      []Call `json:"calls,omitempty"`
 	Goroutines int    `json:"goroutines,omitempty"`
@@ -54,6 +57,21 @@ type Call struct {
 	T1     int64  `json:"t1,omitempty"`
 	Err    string `json:"e,omitempty"`
 	Panic  string `json:"x,omitempty"`
+}
+
+// Step of a session: optionally (re)write files, then optionally run a program over files.
+type Step struct {
+	Write map[string][]byte `json:"write,omitempty"` // name (relative to Case.Dir) -> new content
+	Src   []byte            `json:"src,omitempty"`
+	Files []string          `json:"files,omitempty"` // names relative to Case.Dir
+	Mode  string            `json:"mode,omitempty"`
+}
+
+type StepResult struct {
+	CompileErr string            `json:"compile_err,omitempty"`
+	Panic      *PanicInfo        `json:"panic,omitempty"`
+	NMatches   int               `json:"n_matches"`
+	Contents   map[string][]byte `json:"contents"` // every regular file in the directory after the step
 }
 
 type Var struct {
@@ -140,6 +158,7 @@ type Result struct {
 	Counters map[string]int `json:"counters,omitempty"`
 	Panic    *PanicInfo `json:"panic,omitempty"` // panic outside a classified phase
 	Races    int       `json:"races,omitempty"`
+	StepResults []StepResult `json:"step_results,omitempty"`
 
 	// filled by the driver when the worker died on this case
 	Died   bool   `json:"died,omitempty"`
